@@ -161,10 +161,16 @@ func VC01_Relay() {
 	if path != 2 {
 		to = "<sip:bob@" + rt.Str("tohost", clsHost, 1, L) + ".nowhere.example.net>;tag=" + rt.Str("totag", clsToken, 1, L)
 	}
-	add("From", "\"A\" <sip:alice@"+rt.Str("fromhost", clsHost, 1, L)+".example.com>;tag="+rt.Str("fromtag", clsToken, 1, L))
-	add("To", to)
-	add("Call-ID", callID)
-	add("CSeq", "1 INVITE")
+	// the headers the proxy decodes for routing are not its own either: their names reach the next hop as spelled
+	// (compact forms, odd case) — varied on the plain listener configuration
+	core := []string{"From", "To", "Call-ID", "CSeq"}
+	if !tcpListener && !must && !keep && rt.Bool("core-headers-respelled") {
+		core = []string{"f", "t", "i", "CSEQ"}
+	}
+	add(core[0], "\"A\" <sip:alice@"+rt.Str("fromhost", clsHost, 1, L)+".example.com>;tag="+rt.Str("fromtag", clsToken, 1, L))
+	add(core[1], to)
+	add(core[2], callID)
+	add(core[3], "1 INVITE")
 	k := rt.Choice("next", K+1)
 	prev := ""
 	for i := 0; i < k; i++ {
